@@ -278,81 +278,8 @@ theorem doWrite_cons (p : Path) (trunc append : Bool) (off : Nat) (data : List N
   rw [hl]
   exact layerCall0_shape _ _ (keepShape_hWrite _ _ _) (keepRoot_hWrite _ _ _) s hc
 
-/-! ### whole operations -/
-
-/-- the operations whose effect on the cache invariant is proved so far: every non-modifying one
-    and the six that copy up and change attributes -/
-def Op.covered : Op → Bool
-  | .open .. | .write .. | .chmod .. | .truncate .. | .setx .. | .rmx .. => true
-  | op => !op.isModifying
 
 theorem resolve_cons (p : List Name) : Triple Consistent (resolve p) (fun _ => Consistent) Consistent :=
   resolve_ro loadDirectory_cons p
-
-theorem runOp_cons (op : Op) (h : op.covered = true) : Triple Consistent (runOp op) (fun _ => Consistent) Consistent := by
-  cases op with
-  | «open» p fl =>
-    unfold runOp
-    refine Triple.bind (resolve_cons p) fun r => ?_
-    obtain ⟨path, st⟩ := r
-    refine kindGuard_ro _ _ _ _ _ ?_
-    refine Triple.bind (doOpen_cons path _ _) fun _ => ?_
-    exact Triple.pure' fun _ h => h.1
-  | write p fl off data =>
-    unfold runOp
-    refine Triple.bind (resolve_cons p) fun r => ?_
-    obtain ⟨path, st⟩ := r
-    refine kindGuard_ro _ _ _ _ _ ?_
-    refine Triple.bind (doWrite_cons path _ _ off data) fun _ => ?_
-    exact Triple.pure' fun _ h => h
-  | chmod p mode =>
-    unfold runOp
-    refine Triple.bind (resolve_cons p) fun r => ?_
-    obtain ⟨path, st⟩ := r
-    refine Triple.ite' (fun _ => Triple.fail' fun _ h => h) fun _ => ?_
-    refine Triple.bind (doSetattr_cons path _ (fun _ => keepShape_hChmod _ _) (fun _ => keepRoot_hChmod _ _)) fun _ => ?_
-    exact Triple.pure' fun _ h => h
-  | truncate p n =>
-    unfold runOp
-    refine Triple.bind (resolve_cons p) fun r => ?_
-    obtain ⟨path, st⟩ := r
-    refine kindGuard_ro _ _ _ _ _ ?_
-    refine Triple.bind (doSetattr_cons path _ (fun _ => keepShape_hTruncate _ _) (fun _ => keepRoot_hTruncate _ _)) fun _ => ?_
-    exact Triple.pure' fun _ h => h
-  | setx p v =>
-    unfold runOp
-    refine Triple.bind (resolve_cons p) fun r => ?_
-    obtain ⟨path, st⟩ := r
-    refine Triple.ite' (fun _ => Triple.fail' fun _ h => h) fun _ => ?_
-    refine Triple.bind (doXattr_cons path _ _ (fun _ => keepShape_hSetX _ _) (fun _ => keepRoot_hSetX _ _)) fun _ => ?_
-    exact Triple.pure' fun _ h => h
-  | rmx p =>
-    unfold runOp
-    refine Triple.bind (resolve_cons p) fun r => ?_
-    obtain ⟨path, st⟩ := r
-    refine Triple.ite' (fun _ => Triple.fail' fun _ h => h) fun _ => ?_
-    refine Triple.bind (doXattr_cons path _ _ (fun _ => keepShape_hRmX _) (fun _ => keepRoot_hRmX _)) fun _ => ?_
-    exact Triple.pure' fun _ h => h
-  | lookup p => exact runOp_ro loadDirectory_cons _ rfl
-  | readdir p => exact runOp_ro loadDirectory_cons _ rfl
-  | read p => exact runOp_ro loadDirectory_cons _ rfl
-  | readlink p => exact runOp_ro loadDirectory_cons _ rfl
-  | getx p => exact runOp_ro loadDirectory_cons _ rfl
-  | walk => exact runOp_ro loadDirectory_cons _ rfl
-  | create p mode => simp [Op.covered, Op.isModifying] at h
-  | mkdir p mode => simp [Op.covered, Op.isModifying] at h
-  | mknod p mode => simp [Op.covered, Op.isModifying] at h
-  | symlink p t => simp [Op.covered, Op.isModifying] at h
-  | link src dst => simp [Op.covered, Op.isModifying] at h
-  | unlink p => simp [Op.covered, Op.isModifying] at h
-  | rmdir p => simp [Op.covered, Op.isModifying] at h
-
-theorem run_cons (ops : List Op) (hops : ∀ op ∈ ops, op.covered = true) :
-    ∀ s, Consistent s → Consistent (run s ops) := by
-  induction ops with
-  | nil => exact fun _ h => h
-  | cons op rest ih =>
-    intro s hs
-    exact ih (fun o ho => hops o (List.mem_cons_of_mem _ ho)) _ ((runOp_cons op (hops op (by simp))).st hs)
 
 end Fbr.Ovl
